@@ -261,6 +261,15 @@ def run(tier: str, seed: int) -> Report:
             rep.extra["design_actions_never_taken"] = never
             if never:
                 raise Machinery(f"HsfzConn: actions never taken in {c}: {never}")
+    # two tasks on one connection (reader blocked while another task writes): shared design layer
+    res = tlc.run_tlc("ConnShared", "MC_ConnShared_ok.cfg", timeout=600, workers=2)
+    rep.add_tlc(res, "MC_ConnShared_ok (two tasks on one connection)")
+    if not res.ok:
+        rep.violate(f"design/{res.violated}", {"where": "ConnShared design layer"}, {"cex": res.cex[-8:]})
+    res = tlc.run_tlc("ConnShared", "MC_ConnShared_devNoMutex.cfg", timeout=600, workers=1)
+    rep.add_tlc(res, "MC_ConnShared_devNoMutex (negative control: reader without the mutex takes the writer's ack)")
+    if res.violated != "AckedWriteSucceeds":
+        raise Machinery(f"negative control devNoMutex did not violate AckedWriteSucceeds (got {res.violated})")
     res = tlc.run_tlc("MC_HsfzConn", "MC_HsfzConn_devS13.cfg", timeout=900, workers=1)
     rep.add_tlc(res, "MC_HsfzConn_devS13 (negative control)")
     if res.violated != "H1_InOrder":
